@@ -1,6 +1,7 @@
 /- Line-protocol ops of the chunk layer (driver only). -/
 import Rml.Model.Serializer
 import Rml.Model.Deserializer
+import Rml.Spec.Chunk
 import Driver.Util
 namespace Driver
 open Rml Rml.Chunk
@@ -102,6 +103,13 @@ def chunkOp (s : ChunkSt) (toks : List String) : Option (ChunkSt × String) :=
       if s.desDead then some (s, "dead") else
       let (s', ms, e) := feedCalls s (splitCalls sizes (keptBytes s.packets mask))
       some (s', showFeed ms e)
+    | none => none
+  | ["spec.feed", data] =>
+    match parseBytes data with
+    | some data =>
+      match Spec.Chunk.decode data with
+      | some ms => some (s, s!"n={ms.length}" ++ String.join (ms.map fun m => " " ++ showMsg m))
+      | none => some (s, "reject")
     | none => none
   | _ => none
 
